@@ -99,6 +99,11 @@ impl StructParser {
             }
         };
 
+        // A field written as #[cfg] alternatives (#[cfg(unix)] mode: u32 / #[cfg(not(unix))] mode:
+        // String) is one key: the first alternative stands for it
+        let mut names = std::collections::HashSet::new();
+        fields.retain(|field| names.insert(field.name.clone()));
+
         // `children: Vec<Self>` names the struct itself
         for field in &mut fields {
             let is_ident = |c: char| c.is_alphanumeric() || c == '_';
